@@ -135,13 +135,27 @@ var namePool = []string{"alice", "bob", "a", "Z9", "A.b-c_d@e", "0", "carol.exam
 func longName(n int) string { return strings.Repeat("n", n) }
 
 type hist struct {
-	c      *ctx
-	cfg    *scfg
-	base   string
-	d      *store.Dir
-	shadow map[string]*srec
-	users  []string
-	noSpec bool // the directory was not built through the store API: no sequential specification
+	c         *ctx
+	cfg       *scfg
+	base      string
+	d         *store.Dir
+	shadow    map[string]*srec
+	users     []string
+	noSpec    bool // the directory was not built through the store API: no sequential specification
+	tmpBroken bool // the work area is currently a regular file: every write must fail and change nothing
+}
+
+// breakTmp / mendTmp: the work area .tmp is replaced by a regular file (and restored): temporary
+// files cannot be created, so add / update fail after they have opened (add: reserved) the target.
+func (h *hist) toggleTmp() {
+	p := filepath.Join(h.base, ".tmp")
+	os.RemoveAll(p)
+	if h.tmpBroken {
+		os.Mkdir(p, 0700)
+	} else {
+		os.WriteFile(p, []byte("x"), 0600)
+	}
+	h.tmpBroken = !h.tmpBroken
 }
 
 func (h *hist) pre() []sent { return snapshot(h.base) }
@@ -272,6 +286,7 @@ func (h *hist) write(op string, user string, pw []byte, admin bool) {
 	case "update":
 		expectOK = rec != nil && h.supported(rec)
 	}
+	expectOK = expectOK && !h.tmpBroken
 	if !h.noSpec {
 		c.emit("law.C01.write_succeeds_iff_spec "+id, tf((err == nil) == expectOK))
 	}
@@ -290,7 +305,9 @@ func (h *hist) write(op string, user string, pw []byte, admin bool) {
 		rec.pw = pw
 		rec.setID = h.d.Default
 	}
-	c.emit("law.C16.work_area_empty_after_op "+id, tf(tmpEmpty(post)))
+	if !h.tmpBroken {
+		c.emit("law.C16.work_area_empty_after_op "+id, tf(tmpEmpty(post)))
+	}
 }
 
 func store_validName(u string) bool {
@@ -522,6 +539,9 @@ func suiteC01(c *ctx) {
 		}
 		for k := 0; k < nops; k++ {
 			u := h.users[r.Intn(len(h.users))]
+			if r.Intn(18) == 0 || (h.tmpBroken && r.Intn(4) == 0) {
+				h.toggleTmp()
+			}
 			switch x := r.Intn(20); {
 			case x < 5:
 				h.write("add", u, genPw(r), r.Intn(3) == 0)
